@@ -71,31 +71,40 @@ APIS = ["await get_resource(T0)", "await get_resource(T1)", "get_resource_nowait
 
 
 def race_params(tier):
-    n = 2 if tier == "quick" else 3
-    S = 7 if tier == "quick" else 8
-    return [P("ntask", 0, n - 2), P("fsteps", 0, 3), P("multi", 0, 1)] + [P(f"api{i}", 0, 3) for i in range(n)] + [
-        P(f"s{i}", 0, 2) for i in range(S)
+    S = 5 if tier == "quick" else 7
+    n = 3
+    return [P("ntask", 0, n - 2), P("fsteps", 0, 3), P("multi", 0, 1), P("failfirst", 0, 1)] + [P(f"api{i}", 0, 3) for i in range(n)] + [
+        P(f"s{i}", 0, 3 if tier == "quick" else 4) for i in range(S)
     ]
 
 
 @guard
 def race_fn(a, tier):
-    nmax = 2 if tier == "quick" else 3
-    S = 7 if tier == "quick" else 8
-    n = 2 + pick(a["ntask"], nmax - 1)
+    S = 5 if tier == "quick" else 7
     fsteps = pick(a["fsteps"], 4) - 1  # -1: a synchronous factory; 0..2: async factory awaiting that many checkpoints
     multi = pick(a["multi"], 2)
-    apis = [pick(a[f"api{i}"], 4) for i in range(n)]
-    tape = Tape([a[f"s{i}"] for i in range(S)])
+    failfirst = pick(a["failfirst"], 2) if fsteps >= 0 else 0  # the first generation attempt raises after its checkpoints
+    if tier == "quick":
+        n = 3 if failfirst else 2  # a failed generation needs two waiters behind it
+    else:
+        n = 2 + pick(a["ntask"], 2)
+    apis = [pick(a[f"api{i}"], 2 if (failfirst and tier == "quick") else 4) for i in range(n)]
+    tape = Tape([a[f"s{i}"] for i in range(3 if (failfirst and tier == "quick") else S)])
     calls = []
     results = {}
     events = []
 
+    class FactoryBoom(Exception):
+        pass
+
     async def afactory():
         calls.append(current_context())
-        v = Val(f"gen#{len(calls)}")
+        mine = len(calls)
+        v = Val(f"gen#{mine}")
         for _ in range(fsteps):
             await anyio.sleep(0)
+        if failfirst and mine == 1:
+            raise FactoryBoom("first generation fails")
         return v
 
     def sfactory():
@@ -140,7 +149,12 @@ def race_fn(a, tier):
             async with anyio.create_task_group() as tg2:
                 for i in range(n):
                     tg2.start_soon(racer, i, ctx)
-            final = [await ctx.get_resource(T0, "a"), ctx.get_resource_nowait(T0, "a")]
+            try:
+                first_final = await ctx.get_resource(T0, "a")
+            except FactoryBoom:  # nobody had generated yet: this call ran the failing first attempt
+                results["main"] = FactoryBoom()
+                first_final = await ctx.get_resource(T0, "a")
+            final = [first_final, ctx.get_resource_nowait(T0, "a")]
             if multi:
                 final.append(ctx.get_resource_nowait(T1, "a"))
             await anyio.wait_all_tasks_blocked()
@@ -151,11 +165,32 @@ def race_fn(a, tier):
     if exc is not None:
         raise exc
     ctx, final = holder["ret"]
-    summary = {"tasks": [APIS[x] for x in apis], "factory": "synchronous" if fsteps < 0 else f"async, {fsteps} checkpoints", "multi_type": bool(multi),
+    summary = {"tasks": [APIS[x] for x in apis], "factory": "synchronous" if fsteps < 0 else f"async, {fsteps} checkpoints", "multi_type": bool(multi), "first_generation_raises": bool(failfirst),
                "schedule": tape.taken, "factory_calls": len(calls)}
     objs = [r for r in results.values() if isinstance(r, Val)] + [f for f in final if isinstance(f, Val)]
+    booms = [i for i, r in results.items() if type(r).__name__ == "FactoryBoom"]
+    apis_of = lambda i: 0 if i == "main" else apis[i]  # noqa: E731
+    if failfirst:
+        # exactly the requester that ran the failing generation sees the error; the others retry: ONE more call
+        expected_calls = 2
+        if len(booms) > 1:
+            return FAIL("race:failed-generation-reported-to-several-requesters", f"results={results}", summary)
+        for i, r in results.items():
+            if i in booms:
+                continue
+            if apis_of(i) == 2:
+                if not (isinstance(r, AsyncResourceError) or isinstance(r, Val)):
+                    return FAIL(f"race:nowait-unexpected:{type(r).__name__}", repr(r), summary)
+            elif not isinstance(r, Val):
+                return FAIL(f"race:lookup-failed-after-a-failed-generation:{type(r).__name__}", repr(r), summary)
+        vals = [r for r in results.values() if isinstance(r, Val)] + [f for f in final if isinstance(f, Val)]
+        if any(v is not vals[0] for v in vals):
+            return FAIL("race:different-objects-after-a-failed-generation", f"results={results} final={final}", summary)
+        if len(calls) != (expected_calls if booms else 1) and not (not booms and len(calls) == 1):
+            return FAIL(f"race:factory-called-{len(calls)}-times-after-a-failed-generation", f"results={results}", summary)
+        return OK(summary, True)
     for i, r in results.items():
-        if apis[i] == 2:
+        if apis_of(i) == 2:
             # sync API: either the async factory is refused, or (if another task already
             # finished generating) the stored product is returned
             if not ((isinstance(r, AsyncResourceError) and fsteps >= 0) or isinstance(r, Val)):
@@ -179,10 +214,10 @@ RACE = Harness(
     name="G-race",
     fn=race_fn,
     params=race_params,
-    cube=lambda tier: 5 if tier == "quick" else 6,
+    cube=lambda tier: 6 if tier == "quick" else 7,
     title="concurrent lookups of one async factory from several tasks under all schedule prefixes",
-    bound_text=lambda tier: f"{'2' if tier == 'quick' else '2-3'} tasks x lookup API{{get_resource(T0), get_resource(sibling type), get_resource_nowait, injected}} "
-    f"x factory {{synchronous, async awaiting 0-2 checkpoints}} x single/multi-type; first {7 if tier == 'quick' else 8} scheduling decisions arbitrary, FIFO afterwards",
+    bound_text=lambda tier: f"2-3 tasks x first generation attempt raises or not x lookup API{{get_resource(T0), get_resource(sibling type), get_resource_nowait, injected}} "
+    f"x factory {{synchronous, async awaiting 0-2 checkpoints}} x single/multi-type; first {5 if tier == 'quick' else 8} scheduling decisions arbitrary (any of up to 5 runnable tasks; 3 decisions in the 3-task quick variant), FIFO afterwards",
     oracle="factory called exactly once, in the requesting context; every successful lookup (racing or later, any type of the factory) "
     "returns that one object; exactly one resource_added event for the generation; the sync API either refuses (AsyncResourceError) or returns the stored product",
     outside="factories that raise; >3 racing tasks; schedules deviating after the prefix",
